@@ -79,6 +79,12 @@ def gen_case(seed: int, prop: str, tier: str) -> dict:
         off = max(0, min(nsectors * 512, base + rng.choice([0, 0, -512, 512, -align, -4096, -rng.randrange(1 << 16), rng.randrange(1 << 16)])))
         ln = rng.choice([1, 512, 4096, 8192, 65536, 8193, 100000, 1 << 20])
         reqs.append(["r", off, ln])
+    if rng.random() < 0.3:
+        # many small reads all over the disk: whatever is fetched per distinct region of the mapping must add up to no more than
+        # the mapping itself
+        for _ in range(rng.choice([12, 20, 28])):
+            off = rng.randrange(nsectors * 512)
+            reqs.append(["r", off - off % 512, rng.choice([512, 4096])])
     # units (and tables) the requests and main ops touch: extras must stay away from them
     touched_units = set()
     for _, off, ln in reqs:
@@ -145,6 +151,8 @@ def _run_variant(case, ops, tag):
         cum_cost = 0
         cum_req = 0
         cum_extra = 0
+        cum_raw = 0
+        nreq = 0
         for op in case["cops"]:
             off, ln = op[1], op[2]
             before = world.total_ledger()
@@ -185,12 +193,31 @@ def _run_variant(case, ops, tag):
             a1 = min(size, off + eff + case["align"])
             tables_seen.update(range(a0 // span, max(a0 // span + 1, (a1 + span - 1) // span)))
             cum_cost += cost
+            cum_raw += after["raw"] - before["raw"]
             cum_req += eff + 2 * case["align"]
-            cum_extra += max(0, F.req_meta_bytes(case["cfg"], img, off, eff + 2 * case["align"]) - 2 * tbytes - top) if tbytes >= 4096 else F.req_meta_bytes(case["cfg"], img, off, eff + 2 * case["align"])
-            cum_allowed = K_REQ * cum_req + K_META * (len(tables_seen) * tbytes + top + cum_extra) + C_REQ
+            nreq += 1
+            rm = F.req_meta_bytes(case["cfg"], img, off, eff + 2 * case["align"])
+            if tbytes >= 4096:
+                cum_extra += max(0, rm - 2 * tbytes - top)  # what is not a mapping table: compressed units, bitmaps
+            elif tbytes == 0:
+                cum_extra += max(0, rm - top)  # one flat table for the whole disk: paid once, through `top`
+            else:
+                cum_extra += rm
+            # small tables keep the generous factor (readers fetch them in sector- or buffer-sized pieces); a large table read
+            # in full more than twice per run is a table that is not being kept
+            k_tab = K_META if tbytes < 65536 else 2
+            k_top = K_META if top < 65536 else 2
+            cum_allowed = K_REQ * cum_req + k_tab * len(tables_seen) * tbytes + k_top * top + K_META * cum_extra + C_REQ
             if cum_cost > cum_allowed:
                 return ("io-cumulative", f"after {op} [{tag}] the run has read {cum_cost} bytes from storage for {cum_req} request bytes touching "
                                          f"{len(tables_seen)} mapping table(s) of {tbytes} bytes (allowed {cum_allowed}): tables are re-read per request"), trace, world, img
+            # the same for literal bytes only (headers, tables, bitmaps, compressed blobs - the storage fake tells them apart from
+            # guest payload and holes): mapping metadata is paid for once per table, however many requests it serves
+            meta_cost = cum_raw
+            meta_allowed = k_tab * len(tables_seen) * tbytes + k_top * top + K_META * cum_extra + C_REQ + 8192 * nreq
+            if meta_cost > meta_allowed:
+                return ("io-metadata", f"after {op} [{tag}] the run has read {meta_cost} bytes of metadata in {nreq} request(s) touching "
+                                       f"{len(tables_seen)} second-level table(s) of {tbytes} bytes, top-level table {top} bytes (allowed {meta_allowed})"), trace, world, img
     return None, trace, world, img
 
 
